@@ -38,6 +38,8 @@ def api_spec(pid, key, clause=""):
     if not m:
         return None
     cls, meth, role = m.groups()
+    if pid not in API_PIDS or meth.startswith("_") and not meth.startswith("__"):
+        return None
     spec = {"class": cls, "method": meth, "role": role.split("+")[0], "property": pid}
     if role.endswith("+synced-operand"):
         spec["operand"] = "synced"
@@ -58,6 +60,7 @@ def special(pid, key, items, repo):
 
 
 SPECIAL = []
+API_PIDS = {"C01", "C02", "C03", "C04", "C10", "C11", "C17"}
 
 
 def concretise(pid, key, items, repo):
@@ -149,7 +152,8 @@ def replay_file(path):
         return 0 if r.returncode == 0 else 3
     if "script" in doc:
         env = dict(os.environ, PYTHONPATH=repo)
-        r = subprocess.run([VENV_PY, os.path.join(ROOT, doc["script"])] + doc.get("script_args", []), env=env,
+        r = subprocess.run([VENV_PY, os.path.join(ROOT, doc["script"])] +
+                           [path if a == "{self}" else a for a in doc.get("script_args", [])], env=env,
                            capture_output=True, text=True, timeout=600)
         sys.stdout.write(r.stdout)
         sys.stderr.write(r.stderr[-3000:])
@@ -162,3 +166,73 @@ def replay_file(path):
         print("  ", o["name"])
     print(f"VIOLATION property={doc['property']} replay={path} no-failing-input-found")
     return 1
+
+
+def c08_special(pid, key, items, repo):
+    if pid != "C08":
+        return None
+    m = re.match(r"^(\w+)\._save_to_resource", key)
+    if not m:
+        return None
+    env = dict(os.environ, PYTHONPATH=repo)
+    try:
+        r = subprocess.run([VENV_PY, os.path.join(HERE, "crash_injector.py"), "search", json.dumps({"class": m.group(1)})],
+                           env=env, capture_output=True, text=True, timeout=900)
+        res = json.loads(r.stdout.strip().splitlines()[-1])
+    except Exception as e:      # noqa: BLE001
+        return {"search": {"error": f"{type(e).__name__}: {e}"}}
+    out = {"search": {k: v for k, v in res.items() if k != "scenario"}, "replayer": "replay/crash_injector.py"}
+    if res.get("found"):
+        out.update(scenario=res["scenario"], message=res["message"], confirmed_on_real_code=True,
+                   script="replay/crash_injector.py", script_args=["run", "{self}"])
+    return out
+
+
+SPECIAL.append(c08_special)
+
+
+def _c19_search(repo):
+    env = dict(os.environ, PYTHONPATH=repo)
+    r = subprocess.run([VENV_PY, os.path.join(HERE, "c19_standin.py"), "search"], env=env, capture_output=True,
+                       text=True, timeout=1200)
+    return json.loads(r.stdout.strip().splitlines()[-1])
+
+
+def c19_special(pid, key, items, repo):
+    if pid != "C19":
+        return None
+    try:
+        res = _c19_search(repo)
+    except Exception as e:      # noqa: BLE001
+        return {"search": {"error": f"{type(e).__name__}: {e}"}}
+    out = {"search": {k: v for k, v in res.items() if k != "scenario"}, "replayer": "replay/c19_standin.py"}
+    if res.get("found"):
+        out.update(scenario=res["scenario"], message=res["message"], confirmed_on_real_code=True,
+                   script="replay/c19_standin.py", script_args=["run", "{self}"])
+    return out
+
+
+def c19_bounded(pid, name, repo, unsupported):
+    if pid != "C19":
+        return None
+    info = {"obligation": name, "tool": "replay/c19_standin.py: fresh process vs every single-value warm-up history "
+            "and two full-pool histories", "bound": "20 value kinds x 12 probes"}
+    try:
+        res = _c19_search(repo)
+    except Exception as e:      # noqa: BLE001
+        info["error"] = f"{type(e).__name__}: {e}"
+        return None, info
+    info["cases"] = res.get("cases")
+    if res.get("found"):
+        os.makedirs(REPLAY_DIR, exist_ok=True)
+        path = os.path.join(REPLAY_DIR, "C19-bounded.json")
+        json.dump({"property": pid, "scenario": res["scenario"], "message": res["message"], "confirmed_on_real_code": True,
+                   "found_by": "bounded stand-in", "script": "replay/c19_standin.py", "script_args": ["run", "{self}"]},
+                  open(path, "w"), indent=1)
+        info["replay"] = path
+        return False, info
+    return True, info
+
+
+SPECIAL.append(c19_special)
+SPECIAL_BOUNDED.append(c19_bounded)
